@@ -798,6 +798,32 @@ def _run_operator(case):
                         v.append(viol("discrete_gradient", f"{what}: element {e}: R.du = {work[e]:.12e} but the stored-energy increment is "
                                                            f"{dWe[e]:.12e} (allowed {allow[e]:.2e})", **k))
 
+        # polynomial exactness of the path quadrature ("a quadratic W is exact at every rule"): along the straight strain path the
+        # Saint-Venant-Kirchhoff stress is linear in s when K = 0 (exact for 1, 2, 3 points) and of degree <= 5 with the
+        # K (I3 - 1)^2 / 2 term (exact for >= 7 points), so R . du must equal the stored-energy increment to round-off.
+        if not gonz and law == "SaintVenantKirchhoff":
+            from EasyFEA import Models
+
+            quad_law = Models.HyperElastic.SaintVenantKirchhoff(dim, lmbda=1.2, mu=0.8, K=0.0, thickness=THICKNESS)
+            for (a, b) in PAIRS[level]:
+                if a == b or not (adm[a] and adm[b] and _admissible(g0, 0.5 * (S[a] + S[b]), dim)):
+                    continue
+                un, un1 = S[a], S[b]
+                for m_, nPoints in [(quad_law, 1), (quad_law, 2), (quad_law, 3), (mat, 7), (mat, 9)]:
+                    sts = state_of(g0, _vec(un)), state_of(g0, _vec(0.5 * (un + un1))), state_of(g0, _vec(un1))
+                    _, Rq, _ = NL.TimeQuadratureStressTensor(m_, *sts, 0.5, nPoints, None)
+                    ntr += 1
+                    Wn, W1 = _np(m_.Compute_W(state_of(g0, _vec(un)))), _np(m_.Compute_W(state_of(g0, _vec(un1))))
+                    dWe = thick * np.sum(wJ * (W1 - Wn), axis=1)
+                    work = np.einsum("ei,ei->e", np.asarray(Rq), (un1 - un).reshape(nel, -1))
+                    allow = 1e-9 * thick * np.sum(wJ * (np.abs(W1) + np.abs(Wn)), axis=1) + 1e-300
+                    if np.any(np.abs(work - dWe) > allow):
+                        e = int(np.argmax(np.abs(work - dWe) / allow))
+                        v.append(viol("quadrature_exactness", f"{op} {et} {a}->{b}: {nPoints}-point rule, polynomial stress of degree "
+                                                              f"{'1' if m_ is quad_law else '<= 5'} along the strain path: R.du = {work[e]:.12e} but the "
+                                                              f"stored-energy increment is {dWe[e]:.12e} (allowed {allow[e]:.2e})",
+                                      **dict(key, state=f"{a}->{b}", variant=f"nPoints={nPoints},K={'0' if m_ is quad_law else '0.5'}")))
+
     elif op == "ActiveStressTensor":
         nPg = wJ.shape[1]
         r = rng("c18active", et)
